@@ -42,7 +42,9 @@ RULE = (
     "vf/wellformed (+onnx.checker); all value names and all node names are unique over graph+subgraphs; inferred static "
     "types/shapes agree with the replay; onnxruntime / onnx.reference outputs == numpy replay on the drawn input; the twin "
     "model with every call<->call_inline flipped gives the same outputs. Non-trivial = trace has a literal operand AND a "
-    "subgraph or function call; distinct by program hash. "
+    "subgraph or function call; distinct by program hash. Values that may carry runtime rounding noise are never fed to "
+    "discontinuous ops, and with a single runtime available non-finite traces are skipped (soundness of the numerical oracle). "
+    "The generator stays out of the named regions in EXCLUDE (confirmed findings; redirected draws are counted). "
     "(b) Trees: a RuleBasedStateMachine applies ops (new Module/ModuleList/Sequential, add Parameter named-as-attribute or "
     "unnamed, setattr child, constructor/append/extend, structural slice of a detached list, iteration by for/index/negative "
     "index/slices, call-twice) to real onnxscript.nn objects, height<=4, root named or unnamed; terminal rule calls the root on "
@@ -61,7 +63,7 @@ ASSUMPTIONS = [
     "ir.Graph up front, assembles ir.Model(graph, functions=builder.functions.values()) and types graph outputs the builder "
     "left untyped",
 ]
-FLOOR = {"quick": 150, "thorough": 2000}
+FLOOR = {"quick": 200, "thorough": 5000}
 TIMEOUT = {"quick": 1500, "thorough": 5 * 3600}
 
 # Named regions of confirmed findings the generator stays out of (see REGIONS at the bottom for the predicates).
@@ -169,7 +171,13 @@ def judge_outputs(tag, a, b, expected, scale):
     Returns (verdict, bucket_suffix, detail)."""
     scale = max(scale, 1.0)
     tol = dict(rel=2e-5, abs_=2e-6 * scale)
+    if a[0] != "ok" or b[0] != "ok":
+        # one runtime only: its kernels' rounding (denormals, fused ops) cannot be cross-checked, and the defects this property is
+        # about change results grossly - a looser tolerance keeps the verdict sound
+        tol = dict(rel=1e-3, abs_=1e-4 * scale)
     if a[0] != "ok" and b[0] != "ok":
+        if "NOT_IMPLEMENTED" in a[1] or "Could not find an implementation" in a[1]:
+            return ("skip_no_kernel", "", a[1])      # onnxruntime has no kernel for this op/type combination
         return ("violation", f"not-executable:{tag}", f"ort: {a[1]} | ref: {b[1]}")
     ca = compare.same_outputs(expected, a[1], **tol) if a[0] == "ok" else None
     cb = compare.same_outputs(expected, b[1], **tol) if b[0] == "ok" else None
@@ -553,9 +561,6 @@ def tree_finish(sim):
     for k, v in param_inits.items():
         if v.name != k:
             verdicts.append(("initializers:key!=value.name", f"initializers[{k!r}].name == {v.name!r}"))
-    realised = sum(1 for p in root.parameters() if p in list(param_inits.values()))
-    if realised != len(set(map(id, root.parameters()))):
-        pass  # covered by 'missing'
     # numerical check: every parameter contributes exactly (number of calls) times
     if all(sim.params[pid]["data"] for pid in spec.values()) and isinstance(y, ir.Value):
         gb.add_output(y, "y")
@@ -620,7 +625,8 @@ def tree_record(col, sim, verdicts, info):
         classes.append("tree:executed:" + info.get("verdict", "?"))
     if _nested_containers(sim, r):
         classes.append("tree:container-in-container")
-    col.case(("tree", _hash(sig)), nontrivial, classes, sample={"part": "tree", "root_name": sim.nodes[r]["name"], "tree": sim.text(r)})
+    col.case(("tree", _hash(sig)), nontrivial, classes,
+             sample={"part": "tree", "root_name": sim.nodes[r]["name"], "tree": sim.text(r)} if info["nparams"] >= 3 and info["height"] >= 3 else None)
     for bucket, detail in verdicts:
         col.violation("tree:" + bucket, detail, {"part": "tree", "history": sim.history, "text": sim.text(r), "exclude": sorted(sim.exclude),
                                                  "rehomed_in_seq": sim.rehomed_in_seq}, size=len(sim.history))
@@ -891,6 +897,7 @@ class Interp:
         self.opset = prog["opset"]
         self.funcs = prog.get("funcs", [])
         self.frec = {}     # function name -> argument arrays of its first call (types of build_function inputs)
+        self.fvals = []    # every value computed inside function bodies (magnitude / finiteness of the whole trace)
 
     # ---- operands
     def operand_arrays(self, step, env, schema):
@@ -1054,10 +1061,12 @@ class Interp:
         self.frec.setdefault(f["name"], list(args))
         fenv = {i: a for i, a in zip(f["params"], args)}
         inner = Interp({"opset": self.opset, "funcs": self.funcs})
+        inner.fvals = self.fvals
         for s in f["body"]:
             if s["k"] == "call":   # nested script call: attribute values may forward the caller's attributes
                 s = dict(s, attrs={k: (attrenv[v["ref"]] if isinstance(v, dict) and "ref" in v else v) for k, v in (s.get("attrs") or {}).items()})
             inner.step(s, fenv, attrenv)
+        self.fvals.extend(fenv.values())
         return [fenv[r] for r in f["ret"]]
 
 
@@ -1464,6 +1473,12 @@ BINARY_F = ["Add", "Sub", "Mul", "Div", "Add", "Mul", "Pow", "PRelu"]
 BINARY_I = ["Add", "Sub", "Mul"]
 PYOP = {"Add": "+", "Sub": "-", "Mul": "*", "Div": "/"}
 COMPARE = ["Less", "Greater", "Equal", "LessOrEqual", "GreaterOrEqual"]
+# Ops whose float result may differ by rounding between onnxruntime and numpy.  Values derived from them ("inexact") are never fed
+# to a discontinuous op (comparison, Floor/Ceil/Round/Sign, Cast to int/bool, ArgMax/TopK, conditions): a 1-ulp difference would
+# flip the result and look like a builder defect.
+INEXACT_OPS = {"Sigmoid", "Tanh", "Exp", "Sqrt", "Erf", "Reciprocal", "Sin", "Cos", "Softsign", "Selu", "Elu", "HardSigmoid", "Celu", "Softmax", "LogSoftmax",
+               "Div", "Pow", "Mean", "ReduceMean", "ReduceSum", "MatMul", "Gemm", "CumSum", "Gelu", "QuickGelu", "LeakyRelu", "PRelu", "Sum"}
+STEP_UNARY = ["Floor", "Ceil", "Sign", "Round"]
 
 
 class TraceGen:
@@ -1482,6 +1497,7 @@ class TraceGen:
         self.local = None          # ids produced inside the current body (bodies return values produced inside)
         self.dropped = 0
         self.scopes = 0
+        self.inexact = set()
 
     # ---- small helpers
     def d(self, strat):
@@ -1505,11 +1521,11 @@ class TraceGen:
             return False
         return True
 
-    def cands(self, pred):
-        return [i for i, a in self.env.items() if pred(np.asarray(a))]
+    def cands(self, pred, exact=False):
+        return [i for i, a in self.env.items() if np.asarray(a).size > 0 and pred(np.asarray(a)) and not (exact and i in self.inexact)]   # zero-size values are never operands
 
-    def pick(self, pred):
-        c = self.cands(pred)
+    def pick(self, pred, exact=False):
+        c = self.cands(pred, exact)
         if not c:
             return None
         c.sort()
@@ -1528,10 +1544,10 @@ class TraceGen:
     def is_num(a):
         return a.dtype in (np.float32, np.float64, np.int64, np.int32)
 
-    def like(self, a):
+    def like(self, a, exact=False):
         """A different visible value with the same dtype and a broadcast-compatible simple shape."""
         a = np.asarray(a)
-        return self.pick(lambda b: b.dtype == a.dtype and (b.shape == a.shape or b.shape == () or (a.ndim >= 1 and b.shape == a.shape[-1:])))
+        return self.pick(lambda b: b.dtype == a.dtype and (b.shape == a.shape or b.shape == () or (a.ndim >= 1 and b.shape == a.shape[-1:])), exact)
 
     # ---- literals
     def scalar_lit(self, kind):
@@ -1549,7 +1565,7 @@ class TraceGen:
             r %= 15      # function bodies (script source text): finite int/float literals only
         if r < 9:
             self.feat.add("lit:float")
-            return self.d(st.sampled_from([0.0, 1.0, -1.0, 0.5, 2.0, -2.5, 3.0, 0.25, 100.0, 0.001, 0.1]))
+            return self.d(st.sampled_from([0.0, 1.0, -1.0, 0.5, 2.0, -2.5, 3.0, 0.25, 8.0, 0.125, 0.1]))
         if r < 15:
             self.feat.add("lit:int-for-float")
             return self.d(st.sampled_from([0, 1, 2, -1, 3]))
@@ -1619,6 +1635,9 @@ class TraceGen:
                     self.env.pop(j, None)
                 self.dropped += 1
                 return False
+        if s["k"] != "op" or s["op"] in INEXACT_OPS or any("v" in o and o["v"] in self.inexact for o in list(s.get("ins", [])) + list((s.get("kwins") or {}).values())):
+            if s["k"] != "init":
+                self.inexact.update(outs)
         self.cur.append(s)
         if self.local is not None and s["k"] != "init":   # initializers live in the root graph: not "produced inside" a body
             self.local.extend(outs)
@@ -1681,7 +1700,7 @@ class TraceGen:
                 s["attrs"][k] = {"ref": same[0]["name"]}
             elif len(fm["attrs"]) < 2:
                 name = f"{'alpha' if t == 'f' else 'axis'}{len(fm['attrs'])}"
-                dflt = self.d(st.sampled_from([None, "same", "other"]))
+                dflt = self.d(st.sampled_from([None, "same", "other"] if t == "f" else [None, "same"]))   # another int (axis/keepdims) may be invalid
                 default = None if dflt is None else v if dflt == "same" else (v + 1 if t == "i" else float(np.float32(v * 0.5 + 0.125)))
                 fm["attrs"].append({"name": name, "type": t, "default": default})
                 fm["values"][name] = v
@@ -1692,11 +1711,15 @@ class TraceGen:
         if self.chance(8):
             x = self.pick(self.is_f)
             ops = UNARY_F
+            if x is not None and np.asarray(self.env[x]).dtype == np.float64:
+                ops = ["Abs", "Neg", "Identity", "Floor", "Ceil", "Sqrt", "Exp", "Relu", "Reciprocal"]   # kernels onnxruntime has for double
         else:
             x = self.pick(lambda a: a.dtype == np.int64)
             ops = UNARY_I
         if x is None:
             return False
+        if self.fmode or x in self.inexact:
+            ops = [o for o in ops if o not in STEP_UNARY]
         if not self.fmode and self.chance(1, 15):   # a literal as the only operand: default dtype
             lit = self.literal("f" if self.chance(5) else "i", self.d(st.sampled_from([None, 2, 3])))
             flat = lit["lit"] if isinstance(lit["lit"], list) else [lit["lit"]]
@@ -1775,11 +1798,11 @@ class TraceGen:
         return bool(self.add(op, ins))
 
     def g_compare(self):
-        x = self.pick(lambda a: a.dtype in (np.float32, np.int64))
+        x = self.pick(lambda a: a.dtype in (np.float32, np.int64), exact=True)
         if x is None:
             return False
         a = np.asarray(self.env[x])
-        y = self.like(a) if self.chance(4) else None
+        y = self.like(a, exact=True) if self.chance(4) else None
         other = {"v": y} if y is not None else self.literal(self.kind_of(a), a.shape[-1] if a.ndim else None)
         ins = [{"v": x}, other]
         if self.chance(3):
@@ -1802,7 +1825,7 @@ class TraceGen:
         if x is None:
             return False
         a = np.asarray(self.env[x])
-        c = self.pick(lambda b: b.dtype == np.bool_ and (b.shape == a.shape or b.shape == ()))
+        c = self.pick(lambda b: b.dtype == np.bool_ and (b.shape == a.shape or b.shape == ()), exact=True)
         cond = {"v": c} if c is not None and self.chance(8) else self.literal("b", a.shape[-1] if a.ndim else None)
         y = self.like(a) if self.chance(4) else None
         other = {"v": y} if y is not None else self.literal(self.kind_of(a), a.shape[-1] if a.ndim else None)
@@ -1837,7 +1860,7 @@ class TraceGen:
         return bool(self.add("Clip", [{"v": x}, {"none": 1}, hi]))
 
     def g_cast(self):
-        x = self.pick(lambda a: True)
+        x = self.pick(lambda a: True, exact=True)
         if x is None:
             return False
         a = np.asarray(self.env[x])
@@ -1925,6 +1948,8 @@ class TraceGen:
         n = a.shape[ax]
         if self.chance(5):
             k = self.d(st.sampled_from([k for k in (2, 3) if k <= n]))
+            if n % k and n - (k - 1) * -(-n // k) <= 0:
+                return False      # uneven split with an empty last chunk: runtimes disagree
             return bool(self.add("Split", [{"v": x}], {"num_outputs": k, "axis": ax}, nout=k))
         c = self.d(st.integers(1, n - 1))
         return bool(self.add("Split", [{"v": x}, self.int_list([c, n - c])], {"axis": ax} if ax or self.chance(5) else {}, nout=2))
@@ -1996,7 +2021,7 @@ class TraceGen:
                 s["posattr"] = True
                 self.feat.add("attr:positional")
             return self.emit(s) and (self.feat.add("op:Flatten") or True)
-        if a.dtype == np.float32 and a.ndim >= 1:
+        if a.dtype == np.float32 and a.ndim >= 1 and x not in self.inexact and np.all(np.isfinite(a)):
             return bool(self.add("ArgMax", [{"v": x}], {"axis": self.d(st.integers(0, a.ndim - 1)), "keepdims": self.d(st.integers(0, 1))}))
         return False
 
@@ -2028,7 +2053,7 @@ class TraceGen:
             self.feat.add("lit:int")
             attrs = {k: 1 for k in ("exclusive", "reverse") if self.chance(2)}
             return bool(self.add("CumSum", [{"v": x}, {"lit": self.d(st.integers(-a.ndim, a.ndim - 1))}], attrs))
-        if len(set(a.reshape(-1, a.shape[-1])[0].tolist())) != a.shape[-1] or not np.all(np.isfinite(a)):
+        if x in self.inexact or len(set(a.reshape(-1, a.shape[-1])[0].tolist())) != a.shape[-1] or not np.all(np.isfinite(a)):
             return False     # ties make the index output implementation-defined
         for row in a.reshape(-1, a.shape[-1]):
             if len(set(row.tolist())) != len(row):
@@ -2193,6 +2218,8 @@ class TraceGen:
         body = {"params": ids, "steps": steps, "ret": rets, "name": f"{kind}_{n}", "pnames": [f"{kind}{n}_in{k}" for k in range(len(ids))],
                 "onames": [f"{kind}{n}_out{k}" for k in range(len(rets))], "auto_scope": f"sg{n}"}
         how = self.d(st.sampled_from(["full", "full", "dtype", "untyped"]))
+        if any(x["k"] == "call" or (x["k"] == "op" and x.get("dom")) for x in _steps_walk(steps)):
+            how = "full"      # contrib ops / function calls have no type inference: the user has to declare the body output types
         # onnxruntime insists on known shapes for the Loop iteration-number/condition inputs: those are always fully typed
         body["ptyped"] = ["full"] * len(ids) if self.chance(8) else ["full" if (kind == "loop" and k < 2) else self.d(st.sampled_from(["full", "dtype"])) for k in range(len(ids))]
         body["otyped"] = [how] * len(rets)
@@ -2230,13 +2257,13 @@ class TraceGen:
     def g_if(self):
         if self.depth >= 2 or self.fmode:
             return False
-        c = self.pick(lambda a: a.dtype == np.bool_ and a.shape == ())
+        c = self.pick(lambda a: a.dtype == np.bool_ and a.shape == (), exact=True)
         if c is None or self.chance(2):
-            x = self.pick(lambda a: a.dtype == np.float32 and a.size >= 1 and np.all(np.isfinite(a)))
+            x = self.pick(lambda a: a.dtype == np.float32 and a.size >= 1 and np.all(np.isfinite(a)) and np.abs(a).max() < 1e3, exact=True)
             if x is None:
                 return False
             a = np.asarray(self.env[x])
-            s = self.add("ReduceSum", [{"v": x}], {"keepdims": 0}, decorate=False) if a.ndim else [x]
+            s = self.add("ReduceMax", [{"v": x}], {"keepdims": 0}, decorate=False) if a.ndim else [x]
             if not s:
                 return False
             r = self.add(self.d(st.sampled_from(["Greater", "Less"])), [{"v": s[0]}, {"lit": self.d(st.sampled_from([0.0, 1, 2.5, -1]))}], decorate=False)
@@ -2306,6 +2333,7 @@ class TraceGen:
         trip = self.d(st.integers(1, 3))
         saved, ids = self.body_begin([np.array(0, np.int64), np.array(True)] + [self.env[c] for c in carried])
         it, cin = ids[0], ids[1]
+        self.inexact.update(p for p, c in zip(ids[2:], carried) if c in self.inexact)
         rets = []
         # condition
         r = self.d(st.integers(0, 3))
@@ -2384,6 +2412,7 @@ class TraceGen:
             init = r[0]
         saved, ids = self.body_begin([self.env[init], a[0]])
         st_, xi = ids
+        self.inexact.update(p for p, c in zip(ids, (init, xs)) if c in self.inexact)
         n1 = self.add(self.d(st.sampled_from(["Add", "Mul", "Sub", "Max"])), [{"v": st_}, {"v": xi}])
         if not n1:
             self.body_end(saved, ids, [], "scan")
@@ -2465,13 +2494,14 @@ class TraceGen:
             return False
         a = np.asarray(self.env[x])
         funcs = self.prog["funcs"]
-        reuse = [j for j, g in enumerate(funcs)] if funcs and self.chance(4) else []
+        # a function is only re-used on arguments of the rank it was generated for (axis attributes inside it)
+        reuse = [j for j, g in enumerate(funcs) if g.get("_rank") == a.ndim] if funcs and self.chance(4) else []
         args = [{"v": x}]
         if reuse:
             j = self.d(st.sampled_from(reuse))
             f = funcs[j]
             if len(f["params"]) == 2:
-                y = self.like(a)
+                y = self.pick(lambda b: b.dtype == a.dtype and b.shape == a.shape and np.all(np.isfinite(b)))
                 args.append({"v": y if y is not None else x})
             given = {}
             for at in f["attrs"]:
@@ -2493,6 +2523,7 @@ class TraceGen:
             j, values = r
             f = funcs[j]
             f["_first"] = values
+            f["_rank"] = a.ndim
             given = {}
             for at in f["attrs"]:
                 if at.get("default") is not None and at["default"] == values[at["name"]] and self.chance(5):
@@ -2575,6 +2606,7 @@ class TraceGen:
         self.prog["outputs"] = outs
         for f in self.prog["funcs"]:
             f.pop("_first", None)
+            f.pop("_rank", None)
         return {"part": "trace", "prog": self.prog, "feeds": optcommon.feeds_to_json(feeds), "exclude": sorted(self.ex), "features": sorted(self.feat)}
 
 
@@ -2634,8 +2666,10 @@ def check_trace(case, want_info=False):
         return [], info
     expected = [np.asarray(rec[i]) for i in prog["outputs"]]
     arrays = dict(rec.all)
-    scale = execs.magnitude_scale({k: v for k, v in arrays.items()})
-    has_nan = any(np.asarray(v).dtype.kind == "f" and np.isnan(np.asarray(v)).any() for v in arrays.values())
+    everything = list(arrays.values()) + list(interp.fvals)
+    scale = execs.magnitude_scale(dict(enumerate(everything)))
+    # with one runtime only, NaN/inf/signed-zero corner behaviour of that runtime's kernels cannot be told from a builder defect
+    has_nan = any(np.asarray(v).dtype.kind == "f" and not np.isfinite(np.asarray(v)).all() for v in everything)
     has_calls = any(s["k"] == "call" for s in prog_steps(prog, with_funcs=False))
     use_ref = not _has_loop_scan_out(prog)     # onnx.reference concatenates Loop scan outputs instead of stacking them
     verdicts = []
@@ -2663,7 +2697,7 @@ def check_trace(case, want_info=False):
             verdicts.append((f"invalid:{kind}", f"[{tag}] {msg}"))
         a, b = run_both(model, feeds, use_ref=use_ref)
         if b[0] != "ok" and has_nan and a[0] == "ok":
-            info["classes"].append("verdict:single-runtime-with-nan-skipped")
+            info["classes"].append("verdict:single-runtime-with-nonfinite-skipped")
             results[tag] = None
             continue
         v, suffix, detail = judge_outputs(tag, a, b, expected, scale)
@@ -2731,8 +2765,9 @@ def run_traces(col, spec):
             col.skip("trace:" + info["skip"])
             return
         prog = case["prog"]
+        n = _count(prog)
         col.case(("trace", _hash(prog)), trace_nontrivial(case), trace_classes(case) + info["classes"],
-                 sample={"part": "trace", "program": program_text(prog), "features": case["features"]})
+                 sample={"part": "trace", "program": program_text(prog), "features": case["features"]} if 7 <= n <= 18 else None)
         for bucket, detail in verdicts:
             col.violation("trace:" + bucket, detail, dict(case, text=program_text(prog)), size=_count(prog))
 
@@ -2908,17 +2943,19 @@ def plan(tier, seed, budget):
         nt, ntree, shards_t, shards_tree = 450, 1200, 11, 5
     else:
         nt, ntree, shards_t, shards_tree = 12000, 40000, 12, 4
-    if "tree" not in only:
-        for i in range(shards_t):
-            specs.append({"part": "trace", "n": max(1, int(nt * budget))})
-    if "trace" not in only:
-        for i in range(shards_tree):
-            specs.append({"part": "tree", "n": max(1, int(ntree * budget))})
+    traces = [{"part": "trace", "n": max(1, int(nt * budget))} for _ in range(shards_t)] if "tree" not in only else []
+    trees = [{"part": "tree", "n": max(1, int(ntree * budget))} for _ in range(shards_tree)] if "trace" not in only else []
+    while traces or trees:       # interleave so that the evidence samples show both parts
+        if traces:
+            specs.append(traces.pop())
+        if trees:
+            specs.append(trees.pop())
     return specs
 
 
 def run_shard(spec):
     col = Collector()
+    col.MAX_SAMPLES = 2
     if spec["part"] == "tree":
         run_machine(make_tree_machine(col), spec["n"], 30, spec["seed"])
     else:
@@ -2930,3 +2967,90 @@ def replay(case):
     if case.get("part") == "tree":
         return tree_replay(case)
     return trace_replay(case)
+
+
+# =====================================================================================================================
+# hand-minimised cases of the recorded regions (one per region; `python -m vf.props.C18` prints / dumps them)
+# =====================================================================================================================
+def minimal_cases():
+    x = np.array([-3.0, 2.0, 3.0], dtype=np.float32)
+    feeds = optcommon.feeds_to_json({"x0": x})
+    inp = [{"id": 1, "name": "x0", "via": "input"}]
+
+    def prog(steps, outputs, funcs=(), opset=21):
+        return {"opset": opset, "inputs": inp, "funcs": list(funcs), "steps": steps, "outputs": outputs, "out_via": "add_output"}
+
+    def case(p, note):
+        return {"part": "trace", "prog": p, "feeds": feeds, "exclude": [], "features": [], "note": note, "text": program_text(p)}
+
+    def op(name, ins, outs, **kw):
+        return dict({"k": "op", "op": name, "ins": ins, "outs": outs}, **kw)
+
+    def body(steps, ret, name, params=()):
+        return {"params": list(params), "steps": steps, "ret": ret, "name": name, "pnames": [f"{name}_in{k}" for k in range(len(params))],
+                "onames": [f"{name}_out{k}" for k in range(len(ret))], "auto_scope": "sg_" + name, "scope": None, "ptyped": ["full"] * len(params),
+                "otyped": ["full"] * len(ret), "spec": False, "ret_tuple": False}
+
+    leaky = {"name": "fn0", "domain": "fdom0", "kind": "script", "attrs": [{"name": "alpha0", "type": "f", "default": 0.5}], "params": [1],
+             "body": [op("LeakyRelu", [{"v": 1}], [2], attrs={"alpha": {"ref": "alpha0"}})], "ret": [2]}
+    two = {"name": "fn0", "domain": "fdom0", "kind": "built", "typed": True, "attrs_as": "list", "attrs": [], "params": [1, 2],
+           "body": [op("Add", [{"v": 1}, {"v": 2}], [3])], "ret": [3]}
+    inner = {"name": "fn0", "domain": "fdom0", "kind": "script", "attrs": [], "params": [1], "body": [op("Relu", [{"v": 1}], [2])], "ret": [2]}
+    outer = {"name": "fn1", "domain": "fdom1", "kind": "script", "attrs": [], "params": [1],
+             "body": [{"k": "call", "fn": 0, "mode": "call", "args": [{"v": 1}], "attrs": {}, "outs": [2]}, op("Neg", [{"v": 2}], [3])], "ret": [3]}
+    cases = {
+        "subgraph_autonames": case(prog([
+            op("Add", [{"v": 1}, {"lit": 1.0}], [2]),
+            {"k": "if", "cond": {"lit": True}, "api": "subgraph", "outs": [7],
+             "then": body([op("Add", [{"v": 1}, {"lit": 2.0}], [3]), op("Mul", [{"v": 3}, {"v": 2}], [4])], [4], "then"),
+             "else": body([op("Identity", [{"v": 1}], [5])], [5], "else")}], [7]),
+            "a = op.Add(x, 1.0); then-branch: t = op.Add(x, 2.0); return op.Mul(t, a)  ->  both Adds are named v_Add_0 / Add_node_0"),
+        "inline_py_attr": case(prog([{"k": "call", "fn": 0, "mode": "inline", "args": [{"v": 1}], "attrs": {"alpha0": 0.25}, "aform": "py", "outs": [2]}], [2], [leaky]),
+                               "op.call_inline(fn, x, alpha0=0.25) raises; op.call(fn, x, alpha0=0.25) works"),
+        "inline_default_attr": case(prog([{"k": "call", "fn": 0, "mode": "inline", "args": [{"v": 1}], "attrs": {}, "aform": "py", "outs": [2]}], [2], [leaky]),
+                                    "fn has alpha0: float = 0.5; op.call_inline(fn, x) emits LeakyRelu without alpha (ONNX default 0.01), op.call(fn, x) uses 0.5"),
+        "inline_literal_arg": case(prog([{"k": "call", "fn": 0, "mode": "inline", "args": [{"v": 1}, {"lit": 2.0}], "attrs": {}, "outs": [2]}], [2], [two]),
+                                   "op.call_inline(fn, x, 2.0) raises; op.call(fn, x, 2.0) promotes the literal"),
+        "nested_function": case(prog([{"k": "call", "fn": 1, "mode": "call", "args": [{"v": 1}], "attrs": {}, "outs": [2]}], [2], [inner, outer]),
+                                "fn1 calls fn0; op.call(fn1, x) registers only fn1 in builder.functions -> model not executable"),
+        "nan_literal": case(prog([op("Add", [{"v": 1}, {"lit": "nan"}], [2]), op("Mul", [{"v": 2}, {"lit": "nan"}], [3])], [3]),
+                            "op.Add(x, float('nan')) then op.Mul(t, float('nan')): ValueError initializer 'const_nan_f32' is already registered"),
+        "negzero_literal": case(prog([op("Mul", [{"v": 1}, {"lit": 0.0}], [2]), op("Div", [{"v": 1}, {"lit": "-0.0"}], [3])], [3, 2]),
+                                "op.Mul(x, 0.0) then op.Div(x, -0.0): the second literal re-uses const_0.0_f32 -> +-inf with the wrong sign"),
+        "unnamed_tensor_operand": case(prog([op("Add", [{"v": 1}, {"tensor": optcommon.arr_to_json(np.array([1, 2, 3], np.float32)), "name": None, "as": "numpy"}], [2])], [2]),
+                                       "op.Add(x, np.array([1, 2, 3], np.float32)): ValueError 'Initializer must have a name'"),
+        "body_dup_return": case(prog([
+            {"k": "scan", "init": [{"v": 1}], "xs": [{"v": 9}], "api": "subgraph", "omode": "int", "outs": [5, 6],
+             "body": body([op("Add", [{"v": 2}, {"v": 3}], [4])], [4, 4], "scan", params=[2, 3])}], [5, 6]),
+            "cumulative-sum Scan body of the tutorial returning (new_state, new_state): subgraph outputs ('scan_out1', 'scan_out1')"),
+        "kw_input_after_gap": case(prog([op("Clip", [{"v": 1}], [2], kwins={"max": {"lit": 1.0}})], [2]),
+                                   "op.Clip(x, max=1.0) builds Clip(x, 1.0): the bound lands in the 'min' position"),
+    }
+    # the Scan case needs a [N, 3] sequence input
+    seq = np.arange(6, dtype=np.float32).reshape(2, 3)
+    c = cases["body_dup_return"]
+    c["prog"]["inputs"] = inp + [{"id": 9, "name": "x1", "via": "input"}]
+    c["feeds"] = optcommon.feeds_to_json({"x0": x, "x1": seq})
+    c["text"] = program_text(c["prog"])
+    tree = [{"op": "new_module", "name": None}, {"op": "param", "mod": 0, "attr": "w", "named": True, "data": True},
+            {"op": "new_module", "name": None}, {"op": "param", "mod": 1, "attr": "w", "named": True, "data": True},
+            {"op": "new_list", "children": [0, 1], "style": "iter", "form": "list"}, {"op": "slice", "list": 2, "cut": 1, "as0": "L", "as1": "S"},
+            {"op": "build", "root": 4}]
+    cases["rehomed_in_unnamed_sequential"] = {"part": "tree", "history": tree, "exclude": [], "rehomed_in_seq": True,
+                                              "note": "root = Sequential(*ModuleList([A(), B()])[1:]): B keeps the name '1' -> initializer '1.w', state_dict key '0.w'"}
+    return cases
+
+
+if __name__ == "__main__":
+    import sys
+
+    out = sys.argv[1] if len(sys.argv) > 1 else None
+    for region, c in minimal_cases().items():
+        v = replay(json.loads(json.dumps(c)))
+        print(f"{region}: region predicate {REGIONS[region](c)}; verdicts:")
+        for b, d in v:
+            print(f"    {b}: {d[:200]}")
+        if out:
+            os.makedirs(out, exist_ok=True)
+            with open(os.path.join(out, f"C18-{region}.json"), "w") as fh:
+                json.dump({"property": ID, "bucket": v[0][0] if v else "", "detail": v[0][1] if v else "", "case": c}, fh, indent=1)
